@@ -207,7 +207,9 @@ def read_pads(attr_reader: AttributeReader, attrs: PadAttrs) -> None:
             pads = []
         case "NOTSET":
             auto_pad = sg.AutoPad.NotSet
-            pads = attr_reader.get_attr("pads", "ints", [0, 0, 0, 0])
+            pads = attr_reader.get_attr(
+                "pads", "ints", [0, 0] * spatial_dims(attr_reader)
+            )
             if len(pads) not in [2, 4]:
                 raise ConversionError('"padding" attribute must have 2 or 4 values')
         case "VALID":
@@ -223,6 +225,20 @@ def read_pads(attr_reader: AttributeReader, attrs: PadAttrs) -> None:
     attrs.autoPad = auto_pad
     if auto_pad == sg.AutoPad.NotSet:
         attrs.pads = pads
+
+
+def spatial_dims(attr_reader: AttributeReader) -> int:
+    """
+    Return the number of spatial dims of a convolution or pooling operator.
+
+    This determines the length of the defaults for per-axis attributes
+    (strides, dilations, pads). It is taken from the `kernel_shape` attribute
+    if present. Otherwise 2 spatial dims are assumed.
+    """
+    kernel_shape = attr_reader.get_attr("kernel_shape", "ints", None)
+    if kernel_shape is None:
+        return 2
+    return len(kernel_shape)
 
 
 def read_rnn_attrs(
@@ -254,7 +270,7 @@ def read_strides(
     """
     Read a stride specification from an ONNX operator.
     """
-    strides = attr_reader.get_attr("strides", "ints", [1, 1])
+    strides = attr_reader.get_attr("strides", "ints", [1] * spatial_dims(attr_reader))
     if len(strides) not in [1, 2]:
         raise ConversionError('"strides" attribute must have 1 or 2 values')
     return strides
@@ -267,8 +283,12 @@ def read_dilations(
     """
     Read a dilation specification from an ONNX operator.
 
-    :param default: Value to return if the operator has no "dilations" attribute
+    :param default:
+        If not None, an operator with no "dilations" attribute gets a dilation
+        of 1 along each spatial axis. Otherwise None is returned for it.
     """
+    if default is not None:
+        default = [1] * spatial_dims(attr_reader)
     dilations = attr_reader.get_attr("dilations", "ints", default)
     if dilations is not None and len(dilations) not in [1, 2]:
         raise ConversionError('"dilations" attribute must have 1 or 2 values')
